@@ -93,7 +93,9 @@ impl From<Option<VcfGenotype>> for genotype::Result {
         match genotype {
             Some(genotype) => match &genotype[..] {
                 [a, b] => match (a.position(), b.position()) {
-                    (Some(a), Some(b)) => match Genotype::try_from_raw(a + b) {
+                    // Allele indices are arbitrary integers in the input: saturate rather than
+                    // overflow, anything above two is multiallelic either way
+                    (Some(a), Some(b)) => match Genotype::try_from_raw(a.saturating_add(b)) {
                         Some(genotype) => genotype::Result::Genotype(genotype),
                         None => genotype::Result::Skipped(genotype::Skipped::Multiallelic),
                     },
